@@ -383,6 +383,16 @@ PROGRAMS = [
      "mov [rsp],rax ; call next ; next: ret  =>  back after the call, RSP restored, [rsp] still rax (live slots survive calls)",
      "post.r[RSP_I] == pre.r[RSP_I]"),
     # ("push_push_pop_pop", four instructions) exhausts 12 GB in the solver and is not generated
+    # round trips: independent of WHERE the slot is, the value must come back (catches value defects of
+    # PUSH/POP that the known slot-convention finding would otherwise mask)
+    ("push_imm32_pop", ["6811223344", "58"], "push imm32 ; pop rax  =>  rax == sign-extended immediate (any imm32), RSP restored",
+     "post.r[RAX_I] == imm_0 && post.r[RSP_I] == pre.r[RSP_I]"),
+    ("push_imm8_pop", ["6a11", "58"], "push imm8 ; pop rax  =>  rax == sign-extended immediate (any imm8), RSP restored",
+     "post.r[RAX_I] == imm_0 && post.r[RSP_I] == pre.r[RSP_I]"),
+    ("push_r64_pop_r64", ["51", "5a"], "push rcx ; pop rdx  =>  rdx == rcx, RSP restored",
+     "post.r[RDX_I] == pre.r[RCX_I] && post.r[RSP_I] == pre.r[RSP_I]"),
+    ("push_r16_pop_r16", ["6651", "665a"], "push cx ; pop dx  =>  dx == cx, upper 48 bits of rdx kept, RSP restored",
+     "post.r[RDX_I] == ((pre.r[RDX_I] & !0xffff) | (pre.r[RCX_I] & 0xffff)) && post.r[RSP_I] == pre.r[RSP_I]"),
 ]
 
 
@@ -426,6 +436,12 @@ def program_harnesses(sc, inv, meta):
             L.append("    // %s: %s" % (hx, form["syntax"]))
             L.append("    let mut f = %s;" % fields_literal(d))
             L.append("    f.ip = ip0.wrapping_add(%d);" % off)
+            if rel is None:
+                # immediates are symbolic, as in the single-instruction harnesses
+                for l in symbolic_parts(form, d, insn.Enc(form["opcode"])):
+                    if l.startswith("f.imm"):
+                        L.append("    " + l)
+            L.append("    let imm_%d = f.imm;" % n)
             if rel is not None:
                 L.append("    f.branch = f.ip.wrapping_add(f.len as u64).wrapping_add(%du64);" % rel)
             L.append("    let next = f.ip.wrapping_add(f.len as u64);")
